@@ -63,11 +63,13 @@ package abi
 // Validate: a valid staking message names one of the three actions, a non-zero delegator, a decodable validator, a POSITIVE
 // amount in the bond denomination, and an old validator exactly for a redelegation.
 //@ func (m StakingMessage) Validate(valAddrCodec addresscodec.Codec, bondDenom string) (err error)
+//@   deterministic[C01.no_node_local_source]
 //@   requires valAddrCodec != nil
 //@   modifies nothing
 //@   ensures[C11.staking_message_valid] err == nil ==> ((m.Action == StakingMessageActionDelegate || m.Action == StakingMessageActionUndelegate || m.Action == StakingMessageActionRedelegate) && m.Delegator != zero(type(common.Address)) && m.Amount != nil && bigval[m.Amount] > 0 && m.Denom == bondDenom)
 //@   panics never
 //@ func (m WithdrawRewardMessage) Validate(valAddrCodec addresscodec.Codec) (err error)
+//@   deterministic[C01.no_node_local_source]
 //@   requires valAddrCodec != nil
 //@   modifies nothing
 //@   ensures[C11.withdraw_message_valid] err == nil ==> m.Delegator != zero(type(common.Address))
